@@ -61,7 +61,8 @@ macro_rules! each_codec_type {
 			Vec<Rc<u8>>, Vec<BTreeMap<u8, u8>>, LinkedList<Vec<u32>>, Option<Vec<Option<Vec<u8>>>>,
 			Vec<NonZeroU128>, Vec<NonZeroU8>, [NonZeroU32; 3], VecDeque<NonZeroI16>, Box<[NonZeroU64; 2]>, Vec<NonZeroI128>,
 			Hdr, [Hdr; 3], [[Hdr; 2]; 2], Vec<Hdr>, Option<[Hdr; 1]>,
-			[u8; 20000], ([u32; 5000], u8), Box<[u16; 9000]>
+			[u8; 20000], ([u32; 5000], u8), Box<[u16; 9000]>,
+			[OptionBool; 3], [Option<bool>; 4], [Compact<u8>; 3], Box<[Option<bool>; 2]>, [i8; 3], [Option<NonZeroU8>; 2]
 		);
 		each_seq_type!($f, $args);
 		each_feature_type!($f, $args);
@@ -70,6 +71,7 @@ macro_rules! each_codec_type {
 		$( {
 			// does this type declare DecodeWithMemTracking? (autoref specialisation, resolved per concrete type)
 			MT.with(|m| m.set((&&Probe::<$t>(PhantomData)).is_mt()));
+			drivers::MLF.with(|m| m.set((&&Probe::<$t>(PhantomData)).mlf()));
 			$f::<$t> $args;
 		} )*
 	};
@@ -187,10 +189,13 @@ macro_rules! each_len_type {
 
 thread_local! { static MT: std::cell::Cell<bool> = std::cell::Cell::new(false); }
 struct Probe<T>(PhantomData<T>);
-trait IsMt { fn is_mt(&self) -> bool; }
-impl<T: parity_scale_codec::DecodeWithMemTracking> IsMt for &Probe<T> { fn is_mt(&self) -> bool { true } }
-trait NotMt { fn is_mt(&self) -> bool; }
-impl<T> NotMt for Probe<T> { fn is_mt(&self) -> bool { false } }
+trait IsMt { fn is_mt(&self) -> bool; fn mlf(&self) -> Option<drivers::MemLimitFn>; }
+impl<T: parity_scale_codec::DecodeWithMemTracking + reg::Reg> IsMt for &Probe<T> {
+	fn is_mt(&self) -> bool { true }
+	fn mlf(&self) -> Option<drivers::MemLimitFn> { Some(drivers::mem_limit_entry::<T>) }
+}
+trait NotMt { fn is_mt(&self) -> bool; fn mlf(&self) -> Option<drivers::MemLimitFn>; }
+impl<T> NotMt for Probe<T> { fn is_mt(&self) -> bool { false } fn mlf(&self) -> Option<drivers::MemLimitFn> { None } }
 
 fn enc_one<T: reg::Reg + parity_scale_codec::Encode>(ctx: &mut Ctx) {
 	drive_enc::<T>(ctx)
